@@ -86,8 +86,8 @@ impl<'a> IndexBuilder<'a> {
         self.data.shrink_to_fit();
         trie_entries.sort_by(|(a, _), (b, _)| a.cmp(b));
 
-        if trie_entries.is_empty() {
-            // yada panics on an empty key set
+        if trie_entries.is_empty() || trie_entries.iter().any(|(k, _)| k.as_bytes().contains(&0)) {
+            // yada panics on an empty key set and on keys which contain its terminator (NUL)
             return Err(DicBuildError {
                 file: "<trie>".to_owned(),
                 line: 0,
